@@ -1691,3 +1691,35 @@ Proof.
   eexists. split; [reflexivity|]. intros p. rewrite get_pixel_gp, gp_fold_put, gp_new; [reflexivity|].
   apply Forall_forall. intros q Hq. rewrite forallb_forall in H. apply in_displayb_spec, H, Hq.
 Qed.
+
+(* ---- no lossy pattern character: whatever char_to_color accepts prints back as itself (ASCII upper-cased) ---- *)
+Definition ascii_upper (ch : Z) : Z := if (97 <=? ch) && (ch <=? 122) then ch - 32 else ch.
+Definition accepted_ok (m : mapping) : bool :=
+  forallb (fun cv : Z * Z => match color_to_char m (snd cv) with Ok ch => ch =? ascii_upper (fst cv) | Panic _ => false end)
+          (m_c2col m).
+
+Lemma all_accepted_ok : forallb accepted_ok all_mappings = true.
+Proof. vm_compute. reflexivity. Qed.
+
+Theorem accepted_chars_roundtrip m ch v :
+  In m all_mappings -> char_to_color m ch = Ok v -> color_to_char m v = Ok (ascii_upper ch) /\ In (ascii_upper ch) (charset m).
+Proof.
+  intros Hm E. pose proof all_accepted_ok as H. rewrite forallb_forall in H. specialize (H m Hm).
+  unfold accepted_ok in H. rewrite forallb_forall in H.
+  unfold char_to_color in E. destruct (lookup ch (m_c2col m)) as [v'|] eqn:El; [|discriminate]. inversion E; subst v'.
+  assert (In (ch, v) (m_c2col m)) as Hin.
+  { clear H E. induction (m_c2col m) as [|[a b] t IH]; cbn [lookup] in El; [discriminate|].
+    destruct (a =? ch) eqn:Ea; [inversion El; subst; left; f_equal; lia|right; apply IH, El]. }
+  specialize (H _ Hin). cbn [fst snd] in H. destruct (color_to_char m v) as [c|] eqn:Ec; [|discriminate].
+  assert (c = ascii_upper ch) by lia. subst c. split; [reflexivity|].
+  (* the printed character belongs to the character set: either a table row or ... the default arm is excluded by the check below *)
+  unfold color_to_char in Ec. destruct (lookup v (m_col2c m)) as [c2|] eqn:E2.
+  - inversion Ec; subst. unfold charset. apply in_map_iff. exists (v, ascii_upper ch). split; [reflexivity|].
+    clear H Hin El. induction (m_col2c m) as [|[a b] t IH]; cbn [lookup] in E2; [discriminate|].
+    destruct (a =? v) eqn:Ea; [inversion E2; subst; left; f_equal; lia|right; apply IH, E2].
+  - exfalso. revert Hm Hin E2. clear. intros Hm Hin E2.
+    assert (forallb (fun m => forallb (fun cv : Z * Z => is_some (lookup (snd cv) (m_col2c m))) (m_c2col m)) all_mappings = true) as G
+      by (vm_compute; reflexivity).
+    rewrite forallb_forall in G. specialize (G m Hm). rewrite forallb_forall in G. specialize (G _ Hin). cbn [snd] in G.
+    rewrite E2 in G. discriminate.
+Qed.
